@@ -175,6 +175,8 @@ func c03Main(r *run.Runner) {
 		pr := gen.Print(gen.Single(p))
 		relCheck(w, states[w.ID], "C03", p, pr.Layout(pr.Uniform(" ")).Source, dbs, nil)
 	})
+	nw := c03Wide(r, states, dbs)
+	r.Extra["wide"] = map[string]any{"programs": nw}
 	r.Extra["bounds"] = map[string]any{"programs": len(progs), "databases": len(dbs), "prefixes": len(prefixes), "kinds": len(kinds), "right_sides": len(rights), "conditions": len(conds), "suffixes": len(suffixes)}
 	r.Sample("L | sort by x | take 1 | join kind = leftouter ( R | where y > 1 ) on k , $left . x < $right . y | count")
 	r.Sample("L | join ( R | join ( C ) on k ) on $left . x == $right . y | project x , y")
